@@ -504,6 +504,187 @@ class SymReal:
         return self.k == FIN
 
 
+class LogVal:
+    """log(x) for a non-negative real x, stored as x: sums of logs multiply, exp() gives x back.
+    No transcendental reasoning reaches the solver.  log(0) = -inf is LogVal(0)."""
+    __slots__ = ('x',)
+    __array_ufunc__ = None
+
+    def __init__(self, x):
+        self.x = x      # python number or SymReal, >= 0
+
+    @staticmethod
+    def of(v):
+        if isinstance(v, LogVal):
+            return v
+        if isinstance(v, (int, float)) and not isinstance(v, bool):
+            if v == 0:
+                return LogVal(1)
+            if v == -math.inf:
+                return LogVal(0)
+            return LogVal(math.exp(v))
+        return None
+
+    def __add__(self, o):
+        o = LogVal.of(o)
+        if o is None:
+            return NotImplemented
+        return LogVal(self.x * o.x)
+    __radd__ = __add__
+
+    def __sub__(self, o):
+        o = LogVal.of(o)
+        if o is None:
+            return NotImplemented
+        return LogVal(self.x / o.x)
+
+    def __rsub__(self, o):
+        o = LogVal.of(o)
+        if o is None:
+            return NotImplemented
+        return LogVal(o.x / self.x)
+
+    def __neg__(self):
+        return LogVal(1 / self.x)
+
+    def _cmp(self, o, op):
+        o = LogVal.of(o)
+        if o is None:
+            return NotImplemented
+        return op(self.x, o.x)
+
+    def __lt__(self, o):
+        return self._cmp(o, operator.lt)
+
+    def __le__(self, o):
+        return self._cmp(o, operator.le)
+
+    def __gt__(self, o):
+        return self._cmp(o, operator.gt)
+
+    def __ge__(self, o):
+        return self._cmp(o, operator.ge)
+
+    def __eq__(self, o):
+        oo = LogVal.of(o)
+        if oo is None:
+            return False
+        return self.x == oo.x
+
+    def __ne__(self, o):
+        r = self.__eq__(o)
+        return (not r) if isinstance(r, bool) else ~r
+
+    def __hash__(self):
+        return 0
+
+    def __repr__(self):
+        return 'LogVal(%r)' % (self.x,)
+
+
+class MathFacade:
+    """`math` for modules that take log/exp of symbolic reals"""
+    inf = math.inf
+    nan = math.nan
+    pi = math.pi
+    e = math.e
+
+    def __getattr__(self, n):
+        return getattr(math, n)
+
+    def log(self, x, *base):
+        if base:
+            raise Unsupported('log with base')
+        if isinstance(x, (SymReal, SymBool)):
+            x = as_real(x)
+            if x.k != FIN:
+                raise Unsupported('log of non-finite')
+            if x <= 0:            # forks
+                if x == 0:
+                    raise ValueError('math domain error')
+                raise ValueError('math domain error')
+            return LogVal(x)
+        if isinstance(x, LogVal):
+            raise Unsupported('log of log')
+        return LogVal(x) if active() and symbolic() else math.log(x)
+
+    def exp(self, x):
+        if isinstance(x, LogVal):
+            return x.x
+        if isinstance(x, SymReal):
+            v = concrete_value(x)
+            if v is None:
+                raise Unsupported('exp of a symbolic real (pass scores as LogVal)')
+            return math.exp(v)
+        return math.exp(x)
+
+    def isclose(self, a, b, rel_tol=1e-09, abs_tol=0.0):
+        if isinstance(a, (SymReal,)) or isinstance(b, (SymReal,)):
+            a, b = as_real(a), as_real(b)
+            if a.k != FIN or b.k != FIN:
+                return a.k == b.k and a.k != NAN
+            d = abs(a - b)
+            return (d <= rel_tol * abs(a)) | (d <= rel_tol * abs(b)) | (d <= abs_tol) | (a == b)
+        return math.isclose(a, b, rel_tol=rel_tol, abs_tol=abs_tol)
+
+    def isinf(self, x):
+        if isinstance(x, SymReal):
+            return x.k in (PINF, NINF)
+        if isinstance(x, LogVal):
+            return bool(x.x == 0)
+        return math.isinf(x)
+
+    def isnan(self, x):
+        if isinstance(x, SymReal):
+            return x.k == NAN
+        return math.isnan(x)
+
+    def sqrt(self, x):
+        if isinstance(x, SymReal):
+            raise Unsupported('sqrt of symbolic')
+        return math.sqrt(x)
+
+    def floor(self, x):
+        if isinstance(x, SymReal):
+            v = concrete_value(x)
+            if v is None:
+                raise Unsupported('floor of symbolic')
+            return math.floor(v)
+        return math.floor(x)
+
+    def ceil(self, x):
+        if isinstance(x, SymReal):
+            v = concrete_value(x)
+            if v is None:
+                raise Unsupported('ceil of symbolic')
+            return math.ceil(v)
+        return math.ceil(x)
+
+
+MATH = MathFacade()
+
+import builtins as _builtins
+
+
+class _FloatMeta(type):
+    def __instancecheck__(cls, x):
+        return isinstance(x, _builtins.float)
+
+    def __call__(cls, x=0.0):
+        if isinstance(x, _np.ndarray) and x.ndim == 0:
+            x = x[()]
+        if isinstance(x, SymReal):
+            return x
+        if isinstance(x, SymBool):
+            return as_real(x)
+        return _builtins.float(x)
+
+
+class FLOAT(metaclass=_FloatMeta):
+    """stands in for the builtin `float` in repo modules during symbolic runs: float(sym) is the identity on reals"""
+
+
+
 def concrete_value(x):
     """python number if x is a numeral, else None."""
     if isinstance(x, SymReal):
